@@ -1388,7 +1388,19 @@ pub fn max_loop_program(rng: &mut Rng) -> Program {
         ops.push(op);
         pool.push(ops.len() - 1);
     }
-    let steps = 3 + rng.usize(4);
+    // first the shapes whose CONSTRUCTION cannot overflow but whose derivatives concatenate two loops over the same
+    // body: (L1 + c) . L2 and L1 . (c + L2); a constructor that merges L1 . L2 directly (and may panic with the
+    // documented overflow, which ends the program) only comes afterwards
+    let (l1, l2) = (pool[0], pool[1]);
+    ops.push(Op::Union(l1, other));
+    let u1 = ops.len() - 1;
+    ops.push(Op::Concat(u1, l2));
+    pool.push(ops.len() - 1);
+    ops.push(Op::Union(other, l2));
+    let u2 = ops.len() - 1;
+    ops.push(Op::Concat(l1, u2));
+    pool.push(ops.len() - 1);
+    let steps = 2 + rng.usize(4);
     for _ in 0..steps {
         let x = *rng.pick(&pool);
         let y = *rng.pick(&pool);
